@@ -1,5 +1,5 @@
 (* Proofs about NV.CramIdx.Multi (C19): index over multi-slice containers, the query over them,
-   query_unmapped. *)
+   query_unmapped_v0. *)
 From Coq Require Import List NArith Bool Lia ZifyBool ZifyN.
 From NV Require Import CramIdx.Crai CramIdx.CraiProofs CramIdx.Multi.
 Import ListNotations.
@@ -45,7 +45,7 @@ Lemma slices_entries_spec : forall ss pos len lm,
 Proof.
   induction ss as [|s t IH]; intros pos len lm Hl Hs Hlm; [reflexivity|].
   pose proof (Forall_inv Hs) as Hs1. pose proof (Forall_inv_tail Hs) as Hs2.
-  destruct Hs1 as [Hne [Hctx Hrok]]. cbn beta in Hlm.
+  destruct Hs1 as [Hne [Hctx [Hrok _]]]. cbn beta in Hlm.
   pose proof (sl_ok_bound len (s :: t) s t eq_refl Hl) as Hb.
   cbn [sl_ok] in Hl. destruct Hl as [Hl1 Hl2].
   cbn [slices_entries mspec_slices].
@@ -243,12 +243,12 @@ Qed.
 (* what the indexed query returns on multi-slice containers, for ANY record filter: per
    container, the filtered records of the WHOLE container once per slice that holds a record of
    the queried reference *)
-Theorem query_m_characterised : forall sel pos f es r lo hi,
+Theorem query_m_v0_characterised : forall sel pos f es r lo hi,
   mfile_ok pos f -> index_m pos f = Ok es ->
-  query_m sel es f r lo hi = flat_map (mvisited sel r lo hi) f.
+  query_m_v0 sel es f r lo hi = flat_map (mvisited sel r lo hi) f.
 Proof.
   intros sel pos f es r lo hi Hok Hidx. rewrite (index_m_spec f pos Hok) in Hidx.
-  injection Hidx as Hidx. subst es. unfold query_m. apply query_mspec.
+  injection Hidx as Hidx. subst es. unfold query_m_v0. apply query_mspec.
   intros c Hc. destruct Hok as [Hl _]. apply (find_flat_hit f pos c Hl Hc).
 Qed.
 
@@ -286,13 +286,13 @@ Proof.
 Qed.
 
 (* the query equals the scan when no container has two slices holding the queried reference *)
-Theorem query_m_equals_scan : forall pos f es r lo hi,
+Theorem query_m_v0_equals_scan : forall pos f es r lo hi,
   mfile_ok pos f -> index_m pos f = Ok es ->
   (forall c, In c f -> (length (holders r c) <= 1)%nat) ->
-  query_m selected es f r lo hi = scan_m f r lo hi.
+  query_m_v0 selected es f r lo hi = scan_m f r lo hi.
 Proof.
   intros pos f es r lo hi Hok Hidx Hone.
-  rewrite (query_m_characterised _ _ _ _ _ _ _ Hok Hidx). unfold scan_m.
+  rewrite (query_m_v0_characterised _ _ _ _ _ _ _ Hok Hidx). unfold scan_m.
   rewrite filter_flat_map. apply flat_map_ext_in. intros c Hc. unfold mvisited.
   rewrite visit_single_holder by (apply Hone; exact Hc).
   rewrite <- existsb_flat_map. fold (m_recs c).
@@ -316,9 +316,9 @@ Proof.
   - repeat constructor; cbn; try discriminate; unfold usize_max; try reflexivity; intros H; discriminate H.
 Qed.
 
-Lemma query_m_duplicates :
+Lemma query_m_v0_duplicates :
   exists pos f es r lo hi, mfile_ok pos f /\ index_m pos f = Ok es /\
-    map rname (query_m selected es f r lo hi) = [0; 1; 0; 1] /\ map rname (scan_m f r lo hi) = [0; 1].
+    map rname (query_m_v0 selected es f r lo hi) = [0; 1; 0; 1] /\ map rname (scan_m f r lo hi) = [0; 1].
 Proof.
   exists 100, dup_witness, (flat_map mspec_entries dup_witness), 0, 1, 100.
   split; [exact dup_witness_ok|]. split; [rewrite (index_m_spec _ _ dup_witness_ok); reflexivity|].
@@ -326,7 +326,7 @@ Proof.
 Qed.
 
 (* ---------------------------------------------------------------------------------------- *)
-(* query_unmapped                                                                             *)
+(* query_unmapped_v0                                                                             *)
 
 Lemma find_app_none : forall (A : Type) (p : A -> bool) l1 l2, find p l1 = None -> find p (l1 ++ l2) = find p l2.
 Proof.
@@ -378,15 +378,15 @@ Proof.
   inversion H as [|? ? Hx Ht]; subst. cbn [filter]. rewrite Hx, (IH Ht). reflexivity.
 Qed.
 
-Lemma query_unmapped_spec : forall f pos f0,
+Lemma query_unmapped_v0_spec : forall f pos f0,
   mlayout_ok pos f -> tail_clean f ->
   (forall c, In c f -> from_off (m_off c) f0 = from_off (m_off c) f) ->
-  query_unmapped (flat_map mspec_entries f) f0 =
+  query_unmapped_v0 (flat_map mspec_entries f) f0 =
   if existsb is_unmapped (flat_map m_recs f) then Ok (scan_unplaced f) else ErrUnexpectedEof.
 Proof.
   induction f as [|c t IH]; intros pos f0 Hl Hclean Hsuffix; [reflexivity|].
   cbn [mlayout_ok] in Hl. destruct Hl as [Hoff [Hh [Hsl Hl]]].
-  cbn [tail_clean] in Hclean. unfold query_unmapped, scan_unplaced. cbn [flat_map].
+  cbn [tail_clean] in Hclean. unfold query_unmapped_v0, scan_unplaced. cbn [flat_map].
   pose proof (find_unmapped_slices (m_slices c) (m_off c) (first_landmark c)) as Hf.
   fold (mspec_entries c) in Hf. fold (m_recs c) in Hf. rewrite existsb_app.
   destruct (find entry_unmapped (mspec_entries c)) as [e|] eqn:Ef.
@@ -407,15 +407,15 @@ Proof.
     destruct (m_off c =? m_off c') eqn:E; [apply N.eqb_eq in E; lia|reflexivity].
 Qed.
 
-(* query_unmapped through the index = the unplaced records a scan keeps, when there is one *)
-Theorem query_unmapped_equals_scan : forall pos f es,
+(* query_unmapped_v0 through the index = the unplaced records a scan keeps, when there is one *)
+Theorem query_unmapped_v0_equals_scan : forall pos f es,
   mfile_ok pos f -> index_m pos f = Ok es -> tail_clean f ->
   existsb is_unmapped (flat_map m_recs f) = true ->
-  query_unmapped es f = Ok (scan_unplaced f).
+  query_unmapped_v0 es f = Ok (scan_unplaced f).
 Proof.
   intros pos f es Hok Hidx Hclean Hex. rewrite (index_m_spec f pos Hok) in Hidx.
   injection Hidx as Hidx. subst es. destruct Hok as [Hl _].
-  rewrite (query_unmapped_spec f pos f Hl Hclean) by (intros c _; reflexivity).
+  rewrite (query_unmapped_v0_spec f pos f Hl Hclean) by (intros c _; reflexivity).
   rewrite Hex. reflexivity.
 Qed.
 
@@ -427,14 +427,14 @@ Proof.
   cbn [tail_clean]. rewrite H1. apply IH. exact H2.
 Qed.
 
-Theorem query_unmapped_none_errors : forall pos f es,
+Theorem query_unmapped_v0_none_errors : forall pos f es,
   mfile_ok pos f -> index_m pos f = Ok es ->
   existsb is_unmapped (flat_map m_recs f) = false ->
-  query_unmapped es f = ErrUnexpectedEof /\ scan_unplaced f = [].
+  query_unmapped_v0 es f = ErrUnexpectedEof /\ scan_unplaced f = [].
 Proof.
   intros pos f es Hok Hidx Hex. rewrite (index_m_spec f pos Hok) in Hidx.
   injection Hidx as Hidx. subst es. destruct Hok as [Hl _].
-  rewrite (query_unmapped_spec f pos f Hl (tail_clean_none f Hex)) by (intros c _; reflexivity).
+  rewrite (query_unmapped_v0_spec f pos f Hl (tail_clean_none f Hex)) by (intros c _; reflexivity).
   rewrite Hex. split; [reflexivity|].
   unfold scan_unplaced. apply filter_none. intros x Hx.
   destruct (is_unmapped x) eqn:Eu; [|reflexivity].
@@ -486,9 +486,9 @@ Proof.
   - repeat constructor; cbn; try discriminate; unfold usize_max; try reflexivity; intros H; discriminate H.
 Qed.
 
-Lemma query_unmapped_boundary :
+Lemma query_unmapped_v0_boundary :
   exists pos f es, mfile_ok pos f /\ index_m pos f = Ok es /\
-    option_map (map rname) (match query_unmapped es f with Ok l => Some l | _ => None end) = Some [1; 2] /\
+    option_map (map rname) (match query_unmapped_v0 es f with Ok l => Some l | _ => None end) = Some [1; 2] /\
     map rname (scan_unplaced f) = [2] /\
     map rname (filter runm (flat_map m_recs f)) = [0; 1; 2].
 Proof.
@@ -520,7 +520,7 @@ Proof.
   intros pos f es c s x r Hok Hidx Hc Hs Hx Hr.
   rewrite (index_m_spec f pos Hok) in Hidx. injection Hidx as Hidx. subst es.
   destruct Hok as [Hlay Hsl]. rewrite Forall_forall in Hsl. pose proof (Hsl c Hc) as Hsc.
-  rewrite Forall_forall in Hsc. destruct (Hsc s Hs) as [_ [_ Hrok]].
+  rewrite Forall_forall in Hsc. destruct (Hsc s Hs) as [_ [_ [Hrok _]]].
   assert (Hrx : rec_ok x) by (rewrite Forall_forall in Hrok; apply Hrok; exact Hx).
   assert (Hslok : sl_ok (m_len c) (m_slices c)).
   { clear - Hlay Hc. revert pos Hlay. induction f as [|h t IH]; intros pos Hlay; [destruct Hc|].
@@ -538,3 +538,268 @@ Proof.
     apply mspec_slices_contains. rewrite <- Hlm. rewrite <- spec_entries_pc. exact He.
   - repeat split; assumption.
 Qed.
+
+(* ======================================================================================== *)
+(* the repaired query (944089d): only the slice at the entry's landmark                       *)
+
+Lemma find_m_hit : forall f pos c, mlayout_ok pos f -> In c f -> find_m (m_off c) f = Some c.
+Proof.
+  induction f as [|h t IH]; intros pos c Hl Hin; [destruct Hin|].
+  cbn [mlayout_ok] in Hl. destruct Hl as [Hoff [Hh [Hlen Hl]]]. cbn [find_m].
+  destruct Hin as [Hin|Hin].
+  - subst h. rewrite N.eqb_refl. reflexivity.
+  - pose proof (m_layout_offsets_ge _ _ _ Hl Hin) as Hge.
+    destruct (m_off h =? m_off c) eqn:E; [apply N.eqb_eq in E; lia|].
+    apply (IH _ _ Hl Hin).
+Qed.
+
+(* the entries with the STORED landmarks *)
+Definition stored_entries (pos : N) (ss : list slice) : list entry :=
+  flat_map (fun s => multi_entries pos (s_landmark s) (s_len s) (s_recs s)) ss.
+
+Lemma mspec_slices_stored : forall ss pos len lm,
+  sl_ok len ss -> match ss with [] => True | a :: _ => s_landmark a = lm end ->
+  mspec_slices pos lm ss = stored_entries pos ss.
+Proof.
+  induction ss as [|s t IH]; intros pos len lm Hl Hlm; [reflexivity|].
+  cbn [sl_ok] in Hl. destruct Hl as [Hl1 Hl2]. cbn beta iota in Hlm.
+  unfold stored_entries. cbn [mspec_slices flat_map]. rewrite <- Hlm. f_equal.
+  apply (IH pos len (s_landmark s + s_len s) Hl2).
+  destruct t as [|s' t']; [exact I|exact Hl1].
+Qed.
+
+(* landmarks grow strictly when every slice has a positive size *)
+Lemma sl_ok_increasing : forall t len s,
+  sl_ok len (s :: t) -> Forall (fun x => 0 < s_len x) (s :: t) ->
+  Forall (fun s' => s_landmark s < s_landmark s') t.
+Proof.
+  induction t as [|s' t' IH]; intros len s Hl Hp; [constructor|].
+  cbn [sl_ok] in Hl. destruct Hl as [Hl1 Hl2].
+  pose proof (Forall_inv Hp) as Hp1. pose proof (Forall_inv_tail Hp) as Hp2. cbn beta in Hp1.
+  constructor; [lia|].
+  pose proof (IH len s' Hl2 Hp2) as Hi.
+  rewrite Forall_forall in *. intros x Hx. specialize (Hi x Hx). lia.
+Qed.
+
+Lemma sl_ok_landmarks_NoDup : forall ss len,
+  sl_ok len ss -> Forall (fun x => 0 < s_len x) ss -> NoDup (map s_landmark ss).
+Proof.
+  induction ss as [|s t IH]; intros len Hl Hp; [constructor|].
+  cbn [map]. constructor.
+  - pose proof (sl_ok_increasing t len s Hl Hp) as Hi. rewrite Forall_forall in Hi.
+    rewrite in_map_iff. intros [x [Hx Hin]]. specialize (Hi x Hin). lia.
+  - cbn [sl_ok] in Hl. destruct Hl as [_ Hl2]. apply (IH len Hl2 (Forall_inv_tail Hp)).
+Qed.
+
+Lemma filter_unique_landmark : forall l s,
+  NoDup (map s_landmark l) -> In s l -> filter (fun x => s_landmark x =? s_landmark s) l = [s].
+Proof.
+  induction l as [|a l IH]; intros s Hnd Hin; [destruct Hin|].
+  cbn [map] in Hnd. inversion Hnd as [|? ? Hnin Hnd']; subst. cbn [filter].
+  destruct Hin as [Hin|Hin].
+  - subst a. rewrite N.eqb_refl. f_equal. apply filter_none. intros x Hx.
+    destruct (s_landmark x =? s_landmark s) eqn:E; [|reflexivity]. exfalso. apply Hnin.
+    apply N.eqb_eq in E. rewrite <- E. apply in_map. exact Hx.
+  - destruct (s_landmark a =? s_landmark s) eqn:E.
+    + exfalso. apply Hnin. apply N.eqb_eq in E. rewrite E. apply in_map. exact Hin.
+    + apply IH; assumption.
+Qed.
+
+Section QueryFixed.
+Variable sel : N -> N -> N -> rec -> bool.
+Variables (f : list mcont) (r lo hi : N).
+
+Definition recs_at (c : mcont) (lm : N) : list rec := flat_map s_recs (slices_at lm c).
+
+Lemma query_m_block : forall c l es,
+  find_m (m_off c) f = Some c ->
+  (forall e, In e l -> e_off e = m_off c /\ slices_at (e_landmark e) c <> []) ->
+  query_m sel (l ++ es) f r lo hi =
+  match query_m sel es f r lo hi with
+  | Ok rest =>
+      Ok (flat_map (fun e => if opt_eqb (e_rid e) r
+                             then filter (sel r lo hi) (recs_at c (e_landmark e)) else []) l ++ rest)
+  | err => err
+  end.
+Proof.
+  intros c l; induction l as [|e l IH]; intros es Hfind Hl.
+  - cbn [app flat_map]. destruct (query_m sel es f r lo hi); reflexivity.
+  - cbn [app query_m flat_map].
+    assert (IH' := IH es Hfind (fun e' He' => Hl e' (or_intror He'))).
+    destruct (Hl e (or_introl eq_refl)) as [Hoff Hne].
+    destruct (opt_eqb (e_rid e) r) eqn:Er.
+    + rewrite Hoff, Hfind. unfold recs_at at 1.
+      destruct (slices_at (e_landmark e) c) as [|s0 ss0] eqn:Es; [congruence|].
+      rewrite IH'. destruct (query_m sel es f r lo hi); try reflexivity.
+      rewrite app_assoc. reflexivity.
+    + rewrite IH'. destruct (query_m sel es f r lo hi); reflexivity.
+Qed.
+
+Definition fvisited (c : mcont) : list rec :=
+  flat_map (fun s => if existsb (on_ref r) (s_recs s) then filter (sel r lo hi) (s_recs s) else [])
+           (m_slices c).
+
+Lemma stored_entries_visit : forall c ss,
+  incl ss (m_slices c) -> NoDup (map s_landmark (m_slices c)) ->
+  flat_map (fun e => if opt_eqb (e_rid e) r
+                     then filter (sel r lo hi) (recs_at c (e_landmark e)) else [])
+           (stored_entries (m_off c) ss) =
+  flat_map (fun s => if existsb (on_ref r) (s_recs s) then filter (sel r lo hi) (s_recs s) else []) ss.
+Proof.
+  intros c ss; induction ss as [|s t IH]; intros Hincl Hnd; [reflexivity|].
+  unfold stored_entries in *. cbn [flat_map]. rewrite flat_map_app.
+  rewrite IH by (try exact Hnd; intros x Hx; apply Hincl; right; exact Hx). f_equal.
+  assert (Hs : In s (m_slices c)) by (apply Hincl; left; reflexivity).
+  rewrite (flat_map_ext_in _ _
+            (fun e => if opt_eqb (e_rid e) r
+                      then filter (sel r lo hi) (recs_at c (e_landmark e)) else [])
+            (fun e => if opt_eqb (e_rid e) r then filter (sel r lo hi) (s_recs s) else [])).
+  - rewrite <- spec_entries_pc, visit_nodup by apply spec_entries_rids_NoDup.
+    rewrite spec_entries_has_ref. reflexivity.
+  - intros e He. rewrite <- spec_entries_pc in He. apply spec_entry_layout in He.
+    cbn in He. destruct He as [_ [He _]]. rewrite He. unfold recs_at, slices_at.
+    rewrite (filter_unique_landmark _ s Hnd Hs). cbn [flat_map]. rewrite app_nil_r. reflexivity.
+Qed.
+
+Lemma stored_entries_hit : forall c ss e,
+  incl ss (m_slices c) -> In e (stored_entries (m_off c) ss) ->
+  e_off e = m_off c /\ slices_at (e_landmark e) c <> [].
+Proof.
+  intros c ss e Hincl He. unfold stored_entries in He. apply in_flat_map in He.
+  destruct He as [s [Hs He]]. rewrite <- spec_entries_pc in He. apply spec_entry_layout in He.
+  cbn in He. destruct He as [H1 [H2 _]]. split; [exact H1|].
+  rewrite H2. unfold slices_at. intros Hnil.
+  assert (Hin : In s (filter (fun x => s_landmark x =? s_landmark s) (m_slices c))).
+  { apply filter_In. split; [apply Hincl; exact Hs|apply N.eqb_refl]. }
+  rewrite Hnil in Hin. destruct Hin.
+Qed.
+
+Lemma query_m_spec_g : forall g,
+  (forall c, In c g -> find_m (m_off c) f = Some c /\ sl_ok (m_len c) (m_slices c) /\
+                       Forall (fun x => 0 < s_len x) (m_slices c)) ->
+  query_m sel (flat_map mspec_entries g) f r lo hi = Ok (flat_map fvisited g).
+Proof.
+  induction g as [|c g IH]; intros Hg; [reflexivity|].
+  destruct (Hg c (or_introl eq_refl)) as [Hfind [Hsl Hpos]].
+  cbn [flat_map]. unfold mspec_entries at 1.
+  rewrite (mspec_slices_stored (m_slices c) (m_off c) (m_len c) (first_landmark c) Hsl)
+    by (unfold first_landmark; destruct (m_slices c); [exact I|reflexivity]).
+  rewrite (query_m_block c).
+  - rewrite IH by (intros c' Hc'; apply Hg; right; exact Hc').
+    rewrite stored_entries_visit; [reflexivity|apply incl_refl|].
+    apply (sl_ok_landmarks_NoDup _ _ Hsl Hpos).
+  - exact Hfind.
+  - intros e He. apply (stored_entries_hit c (m_slices c) e (incl_refl _) He).
+Qed.
+End QueryFixed.
+
+Lemma mfile_ok_container : forall pos f c, mfile_ok pos f -> In c f ->
+  find_m (m_off c) f = Some c /\ sl_ok (m_len c) (m_slices c) /\ Forall (fun x => 0 < s_len x) (m_slices c).
+Proof.
+  intros pos f c [Hl Hs] Hc. split; [apply (find_m_hit f pos c Hl Hc)|]. split.
+  - clear - Hl Hc. revert pos Hl. induction f as [|h t IH]; intros pos Hl; [destruct Hc|].
+    cbn [mlayout_ok] in Hl. destruct Hl as [_ [_ [Hsl Hl]]].
+    destruct Hc as [Hc|Hc]; [subst h; exact Hsl|apply (IH Hc _ Hl)].
+  - rewrite Forall_forall in Hs. specialize (Hs c Hc). rewrite Forall_forall in *.
+    intros s Hin. destruct (Hs s Hin) as [_ [_ [_ Hp]]]. exact Hp.
+Qed.
+
+(* what the repaired query returns, for ANY record filter: slice after slice in file order, the
+   filtered records of exactly the slices that hold a record of the queried reference *)
+Theorem query_m_characterised : forall sel pos f es r lo hi,
+  mfile_ok pos f -> index_m pos f = Ok es ->
+  query_m sel es f r lo hi = Ok (flat_map (fvisited sel r lo hi) f).
+Proof.
+  intros sel pos f es r lo hi Hok Hidx. rewrite (index_m_spec f pos Hok) in Hidx.
+  injection Hidx as Hidx. subst es. apply query_m_spec_g.
+  intros c Hc. apply (mfile_ok_container pos f c Hok Hc).
+Qed.
+
+(* the query equals the scan on EVERY well-formed file, whatever the number of slices *)
+Theorem query_m_equals_scan : forall pos f es r lo hi,
+  mfile_ok pos f -> index_m pos f = Ok es ->
+  query_m selected es f r lo hi = Ok (scan_m f r lo hi).
+Proof.
+  intros pos f es r lo hi Hok Hidx.
+  rewrite (query_m_characterised _ _ _ _ _ _ _ Hok Hidx). f_equal. unfold scan_m.
+  rewrite filter_flat_map. apply flat_map_ext_in. intros c _. unfold fvisited, m_recs.
+  rewrite filter_flat_map. apply flat_map_ext_in. intros s _.
+  destruct (existsb (on_ref r) (s_recs s)) eqn:E; [reflexivity|].
+  symmetry. apply filter_none. intros x Hx.
+  destruct (selected r lo hi x) eqn:Es; [|reflexivity].
+  apply selected_on_ref in Es.
+  assert (Hex : existsb (on_ref r) (s_recs s) = true) by (apply existsb_exists; exists x; split; assumption).
+  congruence.
+Qed.
+
+(* the witness on which the old query repeated the records is now answered like the scan *)
+Lemma query_m_no_duplicates_on_witness :
+  query_m selected (flat_map mspec_entries dup_witness) dup_witness 0 1 100 = Ok (scan_m dup_witness 0 1 100).
+Proof. vm_compute. reflexivity. Qed.
+
+(* an entry whose landmark is not a slice of its container is InvalidData *)
+Lemma query_m_bad_landmark :
+  query_m selected (bump_landmark 1 (flat_map mspec_entries dup_witness)) dup_witness 0 1 100 = ErrInvalidData.
+Proof. vm_compute. reflexivity. Qed.
+
+(* ======================================================================================== *)
+(* the repaired query_unmapped (47f309c, 5cbbdb3)                                             *)
+
+Lemma unplaced_flagged_unmapped : forall x, unplaced_flagged x = true -> is_unmapped x = true.
+Proof. intros x H. unfold unplaced_flagged in H. apply andb_prop in H. apply H. Qed.
+
+Lemma query_unmapped_spec : forall f pos f0,
+  mlayout_ok pos f ->
+  (forall c, In c f -> from_off (m_off c) f0 = from_off (m_off c) f) ->
+  query_unmapped (flat_map mspec_entries f) f0 = Ok (filter unplaced_flagged (flat_map m_recs f)).
+Proof.
+  induction f as [|c t IH]; intros pos f0 Hl Hsuffix; [reflexivity|].
+  cbn [mlayout_ok] in Hl. destruct Hl as [Hoff [Hh [Hsl Hl]]].
+  unfold query_unmapped. cbn [flat_map].
+  pose proof (find_unmapped_slices (m_slices c) (m_off c) (first_landmark c)) as Hf.
+  fold (mspec_entries c) in Hf. fold (m_recs c) in Hf.
+  destruct (find entry_unmapped (mspec_entries c)) as [e|] eqn:Ef.
+  - destruct Hf as [He Hex]. rewrite (find_app_some _ _ _ _ e Ef).
+    rewrite He, (Hsuffix c (or_introl eq_refl)). cbn [from_off]. rewrite N.eqb_refl.
+    reflexivity.
+  - rewrite (find_app_none _ _ _ _ Ef). rewrite filter_app.
+    assert (Hnone : filter unplaced_flagged (m_recs c) = []).
+    { apply filter_none. intros x Hx. destruct (unplaced_flagged x) eqn:Eu; [|reflexivity].
+      apply unplaced_flagged_unmapped in Eu.
+      assert (Hex : existsb is_unmapped (m_recs c) = true) by (apply existsb_exists; exists x; split; assumption).
+      congruence. }
+    rewrite Hnone. cbn [app].
+    apply (IH (pos + m_hlen c + m_len c) f0 Hl).
+    intros c' Hc'. rewrite (Hsuffix c' (or_intror Hc')). cbn [from_off].
+    pose proof (m_layout_offsets_ge _ _ _ Hl Hc') as Hge.
+    destruct (m_off c =? m_off c') eqn:E; [apply N.eqb_eq in E; lia|reflexivity].
+Qed.
+
+(* query_unmapped through the index = the records a scan keeps with the same test (no reference
+   id and the UNMAPPED flag), on EVERY well-formed file *)
+Theorem query_unmapped_equals_scan_flagged : forall pos f es,
+  mfile_ok pos f -> index_m pos f = Ok es ->
+  query_unmapped es f = Ok (filter unplaced_flagged (flat_map m_recs f)).
+Proof.
+  intros pos f es Hok Hidx. rewrite (index_m_spec f pos Hok) in Hidx.
+  injection Hidx as Hidx. subst es. destruct Hok as [Hl _].
+  apply (query_unmapped_spec f pos f Hl). intros c _. reflexivity.
+Qed.
+
+(* ... which are all the unplaced records when unplaced records carry the flag *)
+Theorem query_unmapped_equals_scan : forall pos f es,
+  mfile_ok pos f -> index_m pos f = Ok es ->
+  Forall (fun x => is_unmapped x = true -> runm x = true) (flat_map m_recs f) ->
+  query_unmapped es f = Ok (scan_unplaced f).
+Proof.
+  intros pos f es Hok Hidx Hflag. rewrite (query_unmapped_equals_scan_flagged pos f es Hok Hidx).
+  f_equal. unfold scan_unplaced. apply filter_ext_in'.
+  rewrite Forall_forall in *. intros x Hx. specialize (Hflag x Hx). unfold unplaced_flagged.
+  destruct (is_unmapped x); [rewrite Hflag; reflexivity|reflexivity].
+Qed.
+
+(* the two witnesses of the old behaviour *)
+Lemma query_unmapped_on_witnesses :
+  query_unmapped (flat_map mspec_entries unm_witness) unm_witness = Ok (scan_unplaced unm_witness) /\
+  query_unmapped (flat_map mspec_entries dup_witness) dup_witness = Ok [].
+Proof. vm_compute. split; reflexivity. Qed.
